@@ -254,8 +254,7 @@ def unaryop(it, op, v, node):
                     neg = {"Eq": "NotEq", "NotEq": "Eq", "Lt": "GtE", "GtE": "Lt", "Gt": "LtE", "LtE": "Gt"}.get(at.op[4:])
                     if neg:
                         return VNum("bool", T.app("cmp_" + neg, *at.args))
-                if v.kind != "bool":
-                    return VNum("bool", T.app("cmp_Eq", v.term, T.ZERO))  # not x  ==  (x == 0)
+                return VNum("bool", T.app("cmp_Eq", v.term, T.ZERO))  # not x  ==  (x == 0), for numbers and for symbolic booleans
             u = VUnknown("not", "bool")
             u.neg_of = v
             return u
@@ -478,6 +477,8 @@ def contains(it, container, item):
             return True
         if ok and not d.extra_unknown:
             return False
+        if not d.items and not d.extra_unknown:
+            return False  # nothing is in an empty dictionary, whatever the key
         return None
     if isinstance(container, (VList, VTuple, VIter)):
         items = it.concrete_items(container)
